@@ -8,6 +8,7 @@ import (
 	"fmt"
 	"net"
 	"net/url"
+	"os"
 	"runtime"
 	"sort"
 	"strings"
@@ -235,6 +236,14 @@ func lifeExec(tr *vh.Transcript, ops []string) {
 				}
 			}
 			synctest.Wait()
+			// background activity that ends by a bounded time-out of its own (a pool answer awaited for 30 s, the 3 s
+			// reconnect delay) has "stopped"; what is still blocked after that is a leak
+			time.Sleep(45 * time.Second)
+			synctest.Wait()
+			if os.Getenv("VERIF_DUMP") == "1" { // what is still there at the end of a history (debugging aid)
+				buf := make([]byte, 4<<20)
+				os.Stderr.Write(buf[:runtime.Stack(buf, true)])
+			}
 		}
 	}()
 	after := func(op string) {
@@ -368,14 +377,23 @@ func TestVerifLife(t *testing.T) {
 	defer tr.Close()
 	if ops := vh.ReplayOps(); ops != nil {
 		tr.Case(0, "replay")
+		stop := vh.Watchdog("case=0", 25*time.Second)
 		lifeBubble(t, tr, ops)
+		stop()
 		return
 	}
 	root := vh.NewRng(vh.Seed())
 	n := vh.EnvInt("VERIF_N", 200)
+	from := vh.EnvInt("VERIF_FROM", 0) // continue after a frozen case
 	for c := 0; c < n; c++ {
+		ops := lifeGen(root.Fork())
+		if c < from {
+			continue
+		}
 		tr.Case(c, "life")
-		lifeBubble(t, tr, lifeGen(root.Fork()))
+		stop := vh.Watchdog(fmt.Sprintf("case=%d", c), 25*time.Second)
+		lifeBubble(t, tr, ops)
+		stop()
 	}
 }
 
@@ -499,13 +517,22 @@ func TestVerifLifeRegular(t *testing.T) {
 	defer tr.Close()
 	if ops := vh.ReplayOps(); ops != nil {
 		tr.Case(0, "replay")
+		stop := vh.Watchdog("case=0", 25*time.Second)
 		lifeBubble(t, tr, ops)
+		stop()
 		return
 	}
 	root := vh.NewRng(vh.Seed())
 	n := vh.EnvInt("VERIF_N", 200)
+	from := vh.EnvInt("VERIF_FROM", 0)
 	for c := 0; c < n; c++ {
+		ops := lifeGenRegular(root.Fork())
+		if c < from {
+			continue
+		}
 		tr.Case(c, "regular")
-		lifeBubble(t, tr, lifeGenRegular(root.Fork()))
+		stop := vh.Watchdog(fmt.Sprintf("case=%d", c), 25*time.Second)
+		lifeBubble(t, tr, ops)
+		stop()
 	}
 }
